@@ -344,8 +344,19 @@ func rebuildTrie(tr *trie.Trie, direct bool, longest int) (*trie.Trie, error) {
 		return nil, fmt.Errorf("json.Marshal(trie) failed: %.300s", err.Error())
 	}
 	fresh := trie.New()
+	jsCopy := bytes.Clone(js)
 	if err := json.Unmarshal(js, fresh); err != nil {
-		return nil, fmt.Errorf("json.Unmarshal of %s failed: %v", js, err)
+		return nil, fmt.Errorf("json.Unmarshal of %s failed: %.300s", gen.Abbrev(js), err.Error())
+	}
+	// the input buffer belongs to the caller, who reuses it; the rebuilt trie must not depend on it
+	for i := range js {
+		js[i] = '}'
+	}
+	if longest < 4000 {
+		again, err := json.Marshal(fresh)
+		if err != nil || !bytes.Equal(again, jsCopy) {
+			return nil, fmt.Errorf("after the caller overwrote the buffer it had passed to json.Unmarshal, the rebuilt trie marshals to %s (error %v), want %s", gen.Abbrev(again), err, gen.Abbrev(jsCopy))
+		}
 	}
 	return fresh, nil
 }
